@@ -222,6 +222,13 @@ pub fn string_index_of(
     };
     let from_index = args.get(1).map(|v| v.to_number() as usize).unwrap_or(0);
 
+    // The empty string is found at the start position, clamped to the length
+    if search.is_empty() {
+        return Ok(Guarded::unguarded(JsValue::Number(
+            from_index.min(s.len()) as f64,
+        )));
+    }
+
     if from_index >= s.len() {
         return Ok(Guarded::unguarded(JsValue::Number(-1.0)));
     }
